@@ -66,6 +66,13 @@ class SourceFile:
                     self.funcs[qn + ".setter"] = fi
                 else:
                     self.funcs[qn] = fi
+                # nested functions: "<outer>.<locals>.<inner>"
+                inner = [n for n in ast.walk(node) if n is not node
+                         and isinstance(n, (ast.FunctionDef, ast.AsyncFunctionDef))]
+                for n in inner:
+                    iqn = f"{qn}.<locals>.{n.name}"
+                    if iqn not in self.funcs:
+                        self.funcs[iqn] = FuncInfo(self.relpath, iqn, n, cls, self.text)
             elif isinstance(node, ast.ClassDef):
                 self.classes[prefix + node.name] = node
                 self._index(node.body, prefix + node.name + ".", prefix + node.name)
